@@ -155,7 +155,7 @@ _C09 = dict(
 _REC = [("g", "α → α")]
 C09 = dict(
     imports=["Compute.Model.Scalar", "Compute.Model.Special"],
-    variables=ALL_CLASSES + " [Cv.OfLit α]",
+    variables=ALL_CLASSES + " [Cv.OfLit α] [Cv.SignBit α]",
     about="src/functions/gamma.rs (`beta`, `gamma`, `ln_gamma`) and src/functions/statistical.rs (`erf`).\n"
           "Inexact float literals are the entries of Generated/C09Tables.lean (bits regenerated by tools/cv/c09.py).\n"
           "`gamma`, `ln_gamma`, `erf` are recursive: the recursive call is the parameter `g`.  The Lanczos `for` loop of\n"
@@ -164,7 +164,9 @@ C09 = dict(
         (_G, "beta", O("beta", fns={"gamma": "Cv.Special.gammaFn"}, **_C09)),
         (_G, "gamma", O("gammaStep", fns={"gamma": "g"}, extra_binders=_REC, loops_as_params=["x"], **_C09)),
         (_G, "ln_gamma", O("lnGammaStep", fns={"ln_gamma": "g"}, extra_binders=_REC, loops_as_params=["x"], **_C09)),
-        (_S, "erf", O("erfStep", fns={"erf": "g"}, extra_binders=_REC, **_C09)),
+        # `x.is_sign_positive()` (repair F56) is spelled `Cv.SignBit.isSignPositive x` (class in Model/Special.lean)
+        (_S, "erf", O("erfStep", fns={"erf": "g"}, extra_binders=_REC, mut=True,
+                      bool_methods={"is_sign_positive": "Cv.SignBit.isSignPositive {0}"}, **_C09)),
     ],
 )
 
@@ -315,14 +317,20 @@ _C03O = dict(mut=True, fns={"alea::f64": "u"}, field_calls={"rng.sample": ("u", 
 C03 = dict(
     imports=["Compute.Model.Scalar", "Compute.Model.Samplers"],
     variables=ALL_CLASSES + " [Inhabited α] [Cv.FiniteTest α]",
-    about="src/distributions/{exponential,gumbel,pareto,uniform}.rs: the inverse-CDF `sample()` bodies as functions of the RNG draw:\n"
+    about="src/distributions/{exponential,gumbel,pareto,uniform}.rs: the inverse-CDF `sample()` formulas as functions of the RNG draw\n"
+          "(for the three samplers that redraw while the draw is 0 — F53 — the value AFTER the `while` loop, as a function of the final draw):\n"
           "`alea::f64()` and the draw of the cached unit-uniform sub-sampler (`self.rng.sample()`, `self.uniform_gen.sample()`) are the\n"
           "PARAMETER `u` (Model/Samplers.lean threads the generator state and takes `u` from it); `x.is_finite()` is\n"
           "`Cv.FiniteTest.isFinite x`.",
     functions=[
-        (_D + "exponential.rs", "Exponential::sample", O("Exponential_sample", **_C03O)),
-        (_D + "gumbel.rs", "Gumbel::sample", O("Gumbel_sample", **_C03O)),
-        (_D + "pareto.rs", "Pareto::sample", O("Pareto_sample", **_C03O)),
+        # (F53: the draw is redrawn while it is 0; the formula is the value after that `while` loop, as a function of the final draw `u`;
+        #  the loop itself is tied in SrcC03Mut, `*_sampleLoop`)
+        (_D + "exponential.rs", "Exponential::sample", O("Exponential_sample", mut=True, closure=dict(
+            kind="after_while", index=0, free={"u": "u", "self.lambda": "lambda"}))),
+        (_D + "gumbel.rs", "Gumbel::sample", O("Gumbel_sample", mut=True, closure=dict(
+            kind="after_while", index=0, free={"u": "u", "self.mu": "mu", "self.beta": "beta"}))),
+        (_D + "pareto.rs", "Pareto::sample", O("Pareto_sample", mut=True, closure=dict(
+            kind="after_while", index=0, free={"u": "u", "self.alpha": "alpha", "self.minval": "minval"}))),
         (_D + "uniform.rs", "Uniform::sample", O("Uniform_sample", **_C03O)),
     ],
 )
@@ -426,11 +434,14 @@ C04L = dict(
           "fold of `f64::max`) is `Cv.VecOps.maxL isNaN nan` with the NaN test and the NaN seed as parameters (as in\n"
           "Model/VecOps.lean), `dot` is the shared unrolled kernel `Cv.dot8`, `Iterator::sum::<f64>()` is `Cv.iterSum`\n"
           "(fold from -0.0), `Iterator::product()` is the left fold of `*` from 1.\n"
+          "`logsumexp` (F55) starts with `if x.is_empty() { return f64::NEG_INFINITY; }`: `x.is_empty()` is `x.isEmpty`, `f64::NEG_INFINITY` is the\n"
+          "parameter `ninf` (as `nan`).\n"
           "`is_matrix` returns `Result<usize, String>`: `Ok(c)` is `some c`, `Err(..)` is `none` (its callers `.unwrap()`); the\n"
           "`usize` division `m.len() / nrows` panics for `nrows = 0` (guard `0 < nrows`).  `inf_norm`: the nested `for` loops with\n"
           "`abs_row_sums.push(s)` are nested folds (`acc ++ [s]`).",
     functions=[
-        _l("src/linalg/utils.rs", "logsumexp", "logsumexp", _C04F, extra_binders=_MAXL),
+        _l("src/linalg/utils.rs", "logsumexp", "logsumexp", _C04F, extra_binders=_MAXL + [("ninf", "α")],
+           consts={"f64::NEG_INFINITY": "ninf"}),
         _l("src/linalg/utils.rs", "logmeanexp", "logmeanexp", _C04F, extra_binders=_MAXL),
         _l("src/linalg/utils.rs", "prod", "prod", _C04F),
         _l("src/linalg/utils.rs", "norm", "norm", _C04F),
@@ -719,13 +730,17 @@ def _fc(file, fn, leanname, kw=None, **frag):
 
 
 C03M = dict(
-    imports=["Compute.Model.Scalar", "Compute.Model.Samplers"],
+    imports=["Compute.Model.Scalar", "Compute.Model.Samplers", "Compute.Model.SrcDraw"],
     variables=ALL_CLASSES + " [Inhabited α] [Cv.FiniteTest α]",
     about="src/distributions/{poisson,binomial,t,beta}.rs: the ROUTING conditions of `Poisson::sample` (`lambda < 10.`) and\n"
           "`Binomial::sample` (the end-point test `|p - 1| <= EPSILON`, the flip `p > 0.5`, the flipped probability, the threshold\n"
           "`p * n <= 30.`) as Boolean / scalar FRAGMENTS, and the compositions `T::sample`, `Beta::sample` as functions of the draws of\n"
           "their sub-samplers: `Normal::default().sample()` is the parameter `z`, `Gamma::new(a, b).sample()` is `gsample a b`,\n"
-          "`self.alpha_gen.sample()` / `self.beta_gen.sample()` are `x` / `y`, `alea::f64()` is `u`.",
+          "`self.alpha_gen.sample()` / `self.beta_gen.sample()` are `x` / `y`, `alea::f64()` is `u`.\n"
+          "Redraw loops (F53, F54) `let mut u = D; while u == 0. { u = D; } tail(u)` with `D` a draw of the generator: the whole body is\n"
+          "`(Cv.SrcDraw.redrawWhile (fun u => u == 0) draw fuel g).map fun r => (tail r.1, r.2)` over an abstract `draw : Rng → α × Rng`\n"
+          "(fuel-bounded: `none` = `fuel` zero draws in a row) — `Exponential/Gumbel/Pareto_sampleLoop`, and `Gamma_prepareLoop` for the\n"
+          "`then` block of `Gamma::sample`'s boost; `Gamma_boost` is the value after that loop.",
     functions=[
         _fc("poisson.rs", "Poisson::sample", "Poisson_route", kind="cond", index=0, free={"self.lambda": "lambda"}),
         _fc("binomial.rs", "Binomial::sample", "Binomial_edge", kw=dict(consts={"f64::EPSILON": "Cv.epsC"}), kind="cond", index=1,
@@ -738,6 +753,16 @@ C03M = dict(
         (_D + "t.rs", "T::sample", O("T_sample", mut=True, extra_binders=[("z", "α"), ("gsample", "α → α → α")],
                                      field_calls={"Normal::default.sample": ("z", "f64"),
                                                   "Gamma::new.sample": ("(gsample {0} {1})", "f64")})),
+        # redraw loops (F53 / F54): whole bodies over an abstract generator, and the boost expression of `Gamma::sample`
+        (_D + "exponential.rs", "Exponential::sample", O("Exponential_sampleLoop", self_fields=["lambda"],
+                                                         redraw=dict(draws=["self.rng.sample()"], state="Cv.Rng"))),
+        (_D + "gumbel.rs", "Gumbel::sample", O("Gumbel_sampleLoop", self_fields=["mu", "beta"], type_alias={"Self::Output": "f64"},
+                                               redraw=dict(draws=["self.uniform_gen.sample()"], state="Cv.Rng"))),
+        (_D + "pareto.rs", "Pareto::sample", O("Pareto_sampleLoop", self_fields=["alpha", "minval"],
+                                               redraw=dict(draws=["alea::f64()"], state="Cv.Rng"))),
+        (_D + "gamma.rs", "Gamma::sample", O("Gamma_prepareLoop", self_fields=["alpha"],
+                                             redraw=dict(draws=["self.uniform_gen.sample()"], state="Cv.Rng", while_index=0))),
+        _fc("gamma.rs", "Gamma::sample", "Gamma_boost", kind="after_while", index=0, free={"u": "u", "self.alpha": "alpha"}),
         (_D + "beta.rs", "Beta::sample", O("Beta_sample", mut=True, self_fields=["alpha", "beta"], fns={"alea::f64": "u"},
                                            extra_binders=[("x", "α"), ("y", "α"), ("u", "α")],
                                            field_calls={"alpha_gen.sample": ("x", "f64"), "beta_gen.sample": ("y", "f64")})),
@@ -778,13 +803,31 @@ C14M = dict(
     ],
 )
 
-TABLE_MUT = {"C01": C01M, "C03": C03M, "C13": C13M, "C14": C14M, "C18": C18M, "C05": C05M, "C10": C10M, "C11": C11M, "C15": C15M, "C19": C19M}
+C04M = dict(
+    imports=["Compute.Model.Scalar", "Compute.Model.Kernels"],
+    variables=MUT_CLASSES,
+    about="src/linalg/utils.rs: the two kernels every other generated file calls BY NAME (`Cv.sum8`, `Cv.dot8`): `sum` and `dot` as whole\n"
+          "functions (`#[cfg(not(feature = \"blas\"))]` path, CFG_FEATURES below): `chunks = (n - n % 8) / 8` (the checked subtraction is a\n"
+          "guard, the literal divisor 8 cannot panic), the 8-way unrolled main loop `for i in 0..chunks` with its `assert!(n > idx + 7)` (a\n"
+          "panic source inside the loop body: `List.foldlM` in the panic `Option`) and ONE accumulator `s += t0 + t1 + .. + t7` in the\n"
+          "source's left-to-right association, then the scalar tail (`x.iter().take(n).skip(chunks * 8)` for `sum`, `(chunks * 8)..n` for\n"
+          "`dot`).  `x[i]` is `x[i]!`; `dot` starts with `assert_eq!(x.len(), y.len())`.",
+    functions=[
+        _m(_UT, "sum", "sum", index_read=None, cfg_features="CARGO"),
+        _m(_UT, "dot", "dot", index_read=None, cfg_features="CARGO"),
+    ],
+)
+
+TABLE_MUT = {"C01": C01M, "C04": C04M, "C03": C03M, "C13": C13M, "C14": C14M, "C18": C18M, "C05": C05M, "C10": C10M, "C11": C11M, "C15": C15M, "C19": C19M}
 
 # theorems of Compute/Props/SrcTieCxxMut.lean the check must find
 REQUIRED_MUT = {
+    "C04": ["Cv.SrcTie.C04Mut.sum_eq", "Cv.SrcTie.C04Mut.dot_eq"],
     "C14": ["Cv.SrcTie.C14Mut.fit_eq"],
     "C13": ["Cv.SrcTie.C13Mut.predictOneCentred_eq", "Cv.SrcTie.C13Mut.predictOne_eq"],
-    "C03": ["Cv.SrcTie.C03Mut." + n for n in ("Poisson_sample_route", "Binomial_sample_routes", "T_sample_eq", "Beta_sample_eq")],
+    "C03": ["Cv.SrcTie.C03Mut." + n for n in ("Poisson_sample_route", "Binomial_sample_routes", "T_sample_eq", "Beta_sample_eq",
+                                              "redrawWhile_eq_redrawNonzero", "Exponential_sampleLoop_eq", "Gumbel_sampleLoop_eq",
+                                              "Pareto_sampleLoop_eq", "Gamma_prepareLoop_eq", "Gamma_boost_eq")],
     "C18": (["Cv.SrcTie.C18Mut.%s_new_eq" % n for n in _NEWGEN]
             + ["Cv.SrcTie.C18Mut.%s_%s_eq" % (n, _camel(m)) for n in sorted(_SETTERS) for m in _SETTERS[n]]
             + ["Cv.SrcTie.C18Mut.%s_update_eq" % n for n in sorted(_SETTERS)]
